@@ -1051,7 +1051,7 @@ func ruleCQEWellFormed(c *Ctx) {
 		}
 	}
 	c.count("cqe_enqueues_checked", n)
-	c.floor("enqueues of a locally built completion entry", n, 6)
+	c.floor("enqueues of a locally built completion entry", n, 4)
 	// sender: the Done callback reports its own argument
 	if pk := c.P.Pkg(pkgSender); pk != nil {
 		info := pk.TypesInfo
